@@ -24,9 +24,13 @@ env = dict(os.environ, OMP_NUM_THREADS='1', MKL_NUM_THREADS='1')
 
 
 def sh(cmd, cwd=None, timeout=900, env=env):
-    p = subprocess.run(cmd, cwd=cwd, env=env, shell=isinstance(cmd, str), capture_output=True, text=True,
-                       timeout=timeout)
-    return p.returncode, (p.stdout + p.stderr)
+    # output goes to a FILE, not a pipe: a grandchild that outlives the command
+    # (a writer blocked on a lock, an orphaned pool worker) must not keep us waiting
+    with tempfile.TemporaryFile('w+') as out:
+        p = subprocess.run(cmd, cwd=cwd, env=env, shell=isinstance(cmd, str), stdout=out,
+                           stderr=subprocess.STDOUT, text=True, timeout=timeout)
+        out.seek(0)
+        return p.returncode, out.read()
 
 
 try:
